@@ -602,8 +602,8 @@ func init() {
 		ID:    "ENTRYINV",
 		Props: []string{"C10"},
 		Min:   6,
-		Doc: "every position written into a path entry by the Cursor code is at most len(node.Key) (= len(Link)-1): the constant 0; len(Link)-1, len(Key), len(Value) or one of these minus a constant; the result of sort.Search over at most len(Key) positions; the old position +1 under a test that position+1 is below len(Link) (or the position below len(Key)); the old position −k; or a φ of such values. Any other constant needs a test that the node has that many keys.",
-		Run: runENTRYINV,
+		Doc:   "every position written into a path entry by the Cursor code is at most len(node.Key) (= len(Link)-1): the constant 0; len(Link)-1, len(Key), len(Value) or one of these minus a constant; the result of sort.Search over at most len(Key) positions; the old position +1 under a test that position+1 is below len(Link) (or the position below len(Key)); the old position −k; or a φ of such values. Any other constant needs a test that the node has that many keys.",
+		Run:   runENTRYINV,
 	})
 }
 
